@@ -15,6 +15,7 @@ package ice
 //     The digest marks a remote candidate whose Address() is not the canonical literal with "~1" after its address id.
 //   start <A|B> <ctl> <ru> <rp>    creds <A|B> <ru> <rp>   adv <ms>   deliver|drop|dup <k>
 //   inject <A|B> <localAddr> <src> <msgspec>   data <A|B> <localAddr> <src> <len> <stunlike>
+//   flood <A|B> <localAddr> <src> <len> <count>  (count payload datagrams in one op, nobody reading: receive-buffer overflow)
 //   write <A|B> <len> <stunlike>   writepair <A|B> <id> <len> <stunlike>   read <A|B> [cap]   (cap = size of the caller's buffer; absent = receiveMTU)
 //   renom <A|B> <laddr> <ridx> <value>   restart <A|B> <u> <p>   close <A|B>   nat <src> <mapped>   block <src> <dst>   mark <label>   end
 // address id k: ip id k/16, port 5000+k%16; net 0 = udp4 (10.0.0.<ip+1>), 1 = udp6 (fd00::<ip+1>), 2 = tcp4, 3 = tcp6.
@@ -1009,6 +1010,34 @@ func (s *vSession) exec(t []string) string {
 		s.hub.mu.Unlock()
 		if ep != nil && h.started && !h.closed {
 			ep.ch <- vDgram{vNetAddr(vNetOf(ep.addr), vAtoi(t[3])), ep.addr, vPayload(vAtoi(t[4]), t[5] == "1")}
+		}
+		synctest.Wait()
+		return s.render("-")
+	case "flood":
+		// flood <A|B> <localAddr> <src> <len> <count>: `count` payload datagrams of `len` bytes from `src`, handed to the
+		// local candidate one after the other with nobody reading (a stalled reader); one digest at the end
+		h := ag(t[1])
+		la := vAtoi(t[2])
+		var ep *vEP
+		s.hub.mu.Lock()
+		for _, l := range s.hub.eps {
+			if len(l) > 0 && l[0].owner == h && vNetAddrID(l[0].addr) == la {
+				ep = l[0]
+			}
+		}
+		s.hub.mu.Unlock()
+		if ep != nil && h.started && !h.closed {
+			n := vAtoi(t[5])
+			if n > 4000 {
+				n = 4000
+			}
+			from := vNetAddr(vNetOf(ep.addr), vAtoi(t[3]))
+			for i := 0; i < n; i++ {
+				ep.ch <- vDgram{from, ep.addr, vPayload(vAtoi(t[4]), false)}
+				if i%512 == 511 {
+					synctest.Wait() // keep the endpoint's channel (4096) from filling up
+				}
+			}
 		}
 		synctest.Wait()
 		return s.render("-")
